@@ -142,7 +142,7 @@ pub fn check(st: &mut Stats, c: &C) {
             }
             let days = oa.sub_date(ob);
             let err = (days * 86_400.0 - (base / 1_000_000) as f64).abs();
-            if !(err <= (base as f64 / 1e6).abs() * (2f64).powi(-50) + 1e-9) {
+            if !(err <= (base as f64 / 1e6).abs() * (2f64).powi(-50)) {
                 st.fail("C17/differences/oracle-sub_date-vs-timestamp", format!("{} - {}: {} days vs {} us", c.a, c.b, days, base));
             }
             if c.a % DAY_US == 0 && c.b % DAY_US == 0 {
@@ -221,7 +221,7 @@ pub fn run(ctx: &Ctx, st: &mut Stats) {
     }
     let times: Vec<i64> = time_pool().into_iter().filter(|t| t % 1_000_000 == 0).collect();
     let nt = times.len() as i64;
-    let tstride = ctx.tier.pick(40_009, 13, 1);
+    let tstride = ctx.tier.pick(40_009, ctx.q(13, 3), 1);
     let times_ref = &times;
     ctx.par(st, "dates x whole-second critical times: OracleDate vs Timestamp", true, 0, (N_DAYS as i64 / tstride) * nt, |st, i, _| {
         let n = MIN_DAY as i64 + (i / nt) * tstride;
@@ -231,7 +231,7 @@ pub fn run(ctx: &Ctx, st: &mut Stats) {
         st.mark_exhaustive("dates x whole-second critical times: OracleDate vs Timestamp", "all dates x whole-second critical times");
     }
     // month arithmetic through the three types
-    let mstride = ctx.tier.pick(20_011, 11, 1);
+    let mstride = ctx.tier.pick(20_011, ctx.q(11, 3), 1);
     let offs: Vec<i64> = (-14..=14).chain([-1200, 1200, -119_988, 119_988, 24, -24, 120, -120, YM_LIM as i64, -(YM_LIM as i64)]).collect();
     let offs_ref = &offs;
     ctx.par(st, "dates x month offsets: Date/OracleDate vs Timestamp", true, 0, N_DAYS as i64, |st, i, rng| {
